@@ -619,6 +619,8 @@ class PenlogReader:
         self.file_mmap.seek(self._lookup_offset(self._current_record_index))
 
     def seek_to_previous_record(self) -> None:
+        if self._current_record_index in (0, -len(self)):
+            raise IndexError("already at the first record")
         self._current_record_index -= 1
         self.seek_to_record(self._current_record_index)
 
@@ -641,7 +643,8 @@ class PenlogReader:
                     yield self.current_record
         else:
             while True:
-                self.readline()
+                if self.readline() == b"":
+                    break
                 if self.current_priority <= priority:
                     yield self.current_record
                 try:
